@@ -445,7 +445,6 @@ loop:
 
 		case <-ctx.Done():
 			canceledIndex = i
-			ok = false
 			break loop
 		}
 	}
@@ -460,9 +459,11 @@ loop:
 			results[rpcToRes[rpc]] = res
 			if res.Error != nil {
 				c.handleResultError(res.Error, rpc.Region(), rc)
+				ok = false
 			}
 		default:
 			results[rpcToRes[rpc]].Error = ctx.Err()
+			ok = false
 		}
 	}
 
